@@ -223,3 +223,55 @@ fn c10_oneshot_decode_no_recovery_validates() {
         assert!(l0 == l1 && l0 != 0 && l0 % 2 == 0);
     }
 }
+
+// ---------------------------------------------------------------- cross-checks of assumed contracts added in the build phase
+
+/// prelude.rs: `usize::checked_next_power_of_two` (complete over all usize)
+#[kani::proof]
+fn std_checked_next_power_of_two() {
+    let x: usize = kani::any();
+    let r = x.checked_next_power_of_two();
+    if x <= (1usize << 63) { let p = r.unwrap(); assert!(p >= x && p.is_power_of_two()); if x <= 65536 { assert!(p == x.next_power_of_two()); } }
+    else { assert!(r.is_none()); }
+}
+/// prelude.rs R18 stub: byte n of u128::from_le_bytes(b) is b[n] (complete: all 16-byte arrays, all n)
+#[kani::proof]
+fn std_u128_from_le_bytes() {
+    let b: [u8; 16] = kani::any();
+    let v = u128::from_le_bytes(b);
+    let n: usize = kani::any();
+    kani::assume(n < 16);
+    assert!(((v >> (8 * n)) & 0xff) as u8 == b[n]);
+}
+/// prelude.rs FixedBitSet model (bounded: up to 40 bits, three symbolic operations): len/grow/set/put/contains/clear agree
+/// with a reference bit vector
+#[kani::proof]
+#[kani::unwind(5)]
+fn fixedbitset_model_bounded() {
+    use fixedbitset::FixedBitSet;
+    let n: usize = 37;
+    let mut b = FixedBitSet::new();
+    b.grow(n);
+    assert!(b.len() == n);
+    let mut model = [false; 40];
+    let mut k = 0;
+    while k < 3 {
+        let bit: usize = kani::any(); kani::assume(bit < n);
+        let op: u8 = kani::any();
+        match op % 4 {
+            0 => { let e: bool = kani::any(); b.set(bit, e); model[bit] = e; }
+            1 => { let prev = b.put(bit); assert!(prev == model[bit]); model[bit] = true; }
+            2 => { b.insert(bit); model[bit] = true; }
+            _ => { assert!(b.contains(bit) == model[bit] && b[bit] == model[bit]); }
+        }
+        k += 1;
+    }
+    let q: usize = kani::any(); kani::assume(q < 40);
+    assert!(b.contains(q) == (q < n && model[q]));
+    let m: usize = if kani::any() { 40 } else { 12 };
+    b.grow(m);
+    assert!(b.len() == if m > n { m } else { n });
+    assert!(b.contains(q) == (q < n && model[q]));
+    b.clear();
+    assert!(!b.contains(q) && b.len() == if m > n { m } else { n });
+}
